@@ -1,5 +1,697 @@
 import DesperModel.Dict
 import DesperModel.Proto
+/-
+  Model of `desper/model/tree.py` (Handle, StaticResourceMap, ResourceMap).
+
+  Python objects are heap objects with aliasing and back pointers, so the model is a *heap*:
+  two typed stores (maps, handles) indexed by object ids, plus a store of static snapshots.
+  Every operation is recursion on the *path* (`key.split('/')`) with store lookups; there is no
+  nested inductive type and no fuel, except for `get_static_map`, whose Python recursion over the
+  tree takes a depth fuel (running out of it is Python's `RecursionError` on a cyclic tree).
+
+  Mirrors, statement by statement (line numbers of the repaired file):
+    Handle.__call__ / clear / cached          tree.py:40-56
+    StaticResourceMap.__setattr__/__delattr__ tree.py:70-76
+    StaticResourceMap.__getitem__             tree.py:78-85
+    StaticResourceMap.__getattribute__        tree.py:87-97
+    StaticResourceMap.get                     tree.py:99-109
+    ResourceMap.get                           tree.py:156-184
+    ResourceMap.__getitem__                   tree.py:186-211
+    ResourceMap.__setitem__                   tree.py:213-263
+    ResourceMap.clear                         tree.py:265-293
+    ResourceMap.get_static_map                tree.py:295-331
+  `ResourceMap.handles` is a `collections.ChainMap`: `layer0 :: lower` is its `maps` list (lookup =
+  first layer that has the name, `in` = some layer has it, assignment acts on layer 0).
+
+  Loaded resources are opaque tokens `(handle id, load number)`; the model never looks at them.
+-/
 namespace Desper.Tree
-def runScenario (_lines : List String) : List String := ["not-implemented"]
+open Desper
+
+/-- identity of a ResourceMap object: created by the program (`decl`) or by `__setitem__` for
+an intermediate key part (`anon`, numbered by the allocation counter) -/
+inductive MId where
+  | decl (n : Nat)
+  | anon (n : Nat)
+deriving DecidableEq, Repr, Inhabited
+
+abbrev HId := Nat
+
+/-- what a loader returned: `tok h n` is the object produced by the n-th `load()` of handle h;
+`none` is the `None` that `Handle.clear` stores -/
+inductive Val where
+  | none
+  | tok (h : HId) (n : Nat)
+deriving DecidableEq, Repr, Inhabited
+
+/-- a value stored in a map -/
+inductive Ref where
+  | map (i : MId)
+  | handle (h : HId)
+deriving DecidableEq, Repr, Inhabited
+
+/-- tree.py:147-154 -/
+structure MapNode where
+  parent : Option MId := none
+  key : Option String := none
+  /-- `self.maps` -/
+  maps : Dict String MId := []
+  /-- `self.handles.maps[0]` -/
+  layer0 : Dict String HId := []
+  /-- `self.handles.maps[1:]` -/
+  lower : List (Dict String HId) := []
+deriving Repr, Inhabited, DecidableEq
+
+def MapNode.layers (n : MapNode) : List (Dict String HId) := n.layer0 :: n.lower
+
+/-- tree.py:25-29 -/
+structure HNode where
+  parent : Option MId := none
+  key : Option String := none
+  cached : Bool := false
+  cache : Val := .none
+  loads : Nat := 0
+deriving Repr, Inhabited, DecidableEq
+
+inductive SAttr where
+  | handle (h : HId)
+  | sub (s : Nat)
+deriving DecidableEq, Repr, Inhabited
+
+/-- an instance of the `StaticSubmap` class that `get_static_map` builds: its `_handle_names`
+and its attributes (slot or `__dict__` entry: indistinguishable through the API) -/
+structure SNode where
+  handleNames : List String := []
+  attrs : Dict String SAttr := []
+deriving Repr, Inhabited, DecidableEq
+
+structure St where
+  mapsD : Dict MId MapNode := []
+  hsD : Dict HId HNode := []
+  /-- allocation counter of implicitly created maps -/
+  next : Nat := 0
+  snaps : Dict Nat SNode := []
+  snext : Nat := 0
+deriving Inhabited
+
+/-- the map object `i` (objects that were never written are fresh `ResourceMap()`s) -/
+def St.m (st : St) (i : MId) : MapNode := (Dict.get? st.mapsD i).getD {}
+def St.h (st : St) (h : HId) : HNode := (Dict.get? st.hsD h).getD {}
+def St.s (st : St) (s : Nat) : SNode := (Dict.get? st.snaps s).getD {}
+def St.setM (st : St) (i : MId) (n : MapNode) : St := { st with mapsD := Dict.set st.mapsD i n }
+def St.setH (st : St) (h : HId) (n : HNode) : St := { st with hsD := Dict.set st.hsD h n }
+
+/-- advance the allocation counter (a `ResourceMap()` was created) -/
+def St.bump (st : St) : St := { st with next := st.next + 1 }
+
+/-! ### ChainMap -/
+
+/-- `ChainMap.__getitem__` / `__contains__`: first layer that has the name -/
+def chainGet? (layers : List (Dict String HId)) (k : String) : Option HId :=
+  layers.findSome? (fun l => Dict.get? l k)
+
+/-- `ChainMap.__iter__`: `d = {}; for mapping in reversed(maps): d.update(dict.fromkeys(mapping))` -/
+def chainKeys (layers : List (Dict String HId)) : List String :=
+  Dict.keys (layers.reverse.foldl
+    (fun (d : Dict String Unit) l => l.foldl (fun d p => Dict.set d p.1 ()) d) [])
+
+/-! ### Handle : tree.py:40-56 -/
+
+/-- `Handle.__call__` : tree.py:40-46 -/
+def callH (st : St) (h : HId) : St × Val :=
+  let n := st.h h
+  if n.cached then (st, n.cache)
+  else
+    -- self._cache = self.load(); self._cached = True
+    let v := Val.tok h (n.loads + 1)
+    (st.setH h { n with cache := v, cached := true, loads := n.loads + 1 }, v)
+
+/-- `Handle.clear` : tree.py:48-51 -/
+def clearH (st : St) (h : HId) : St :=
+  st.setH h { st.h h with cached := false, cache := .none }
+
+/-- `Handle.cached` : tree.py:53-56 -/
+def cachedH (st : St) (h : HId) : Bool := (st.h h).cached
+
+/-! ### keys -/
+
+def splitChars (sep : Char) : List Char → List (List Char)
+  | [] => [[]]
+  | c :: cs =>
+    if c = sep then [] :: splitChars sep cs
+    else match splitChars sep cs with
+      | [] => [[c]]
+      | w :: ws => (c :: w) :: ws
+
+/-- `key.split('/')` (never empty; empty components are legal names) -/
+def splitKey (key : String) : List String :=
+  (splitChars '/' key.toList).map String.ofList
+
+/-- `'/'.join(ks)` -/
+def joinKey (ks : List String) : String :=
+  String.ofList (List.intercalate ['/'] (ks.map String.toList))
+
+/-- `(keys[:-1], keys[-1])` -/
+def keyPath (key : String) : List String × String :=
+  let ks := splitKey key
+  (ks.dropLast, ks.getLastD "")
+
+/-! ### ResourceMap.get / __getitem__ : tree.py:156-211 -/
+
+/-- `for subkey in keys[:-1]: value = value.maps[subkey]` (none: KeyError) -/
+def walk (st : St) : MId → List String → Option MId
+  | i, [] => some i
+  | i, k :: ks =>
+    match Dict.get? (st.m i).maps k with
+    | none => none
+    | some c => walk st c ks
+
+/-- `if last_key in value.handles: value.handles[last_key] else: value.maps[last_key]` -/
+def lookup (st : St) (i : MId) (k : String) : Option Ref :=
+  match chainGet? (st.m i).layers k with
+  | some h => some (.handle h)
+  | none => (Dict.get? (st.m i).maps k).map .map
+
+/-- `ResourceMap.get` on split keys; `none` is the `except KeyError: return default` -/
+def getPath (st : St) (i : MId) (ps : List String) (last : String) : Option Ref :=
+  match walk st i ps with
+  | none => none
+  | some t => lookup st t last
+
+/-- `ResourceMap.get(key, default)` : tree.py:156-184 -/
+def get (st : St) (i : MId) (key : String) : Option Ref :=
+  getPath st i (keyPath key).1 (keyPath key).2
+
+/-- result of `[]`: a loaded resource or a sub-map -/
+inductive Item where
+  | val (v : Val)
+  | map (i : MId)
+  | smap (s : Nat)
+deriving DecidableEq, Repr, Inhabited
+
+inductive Outcome (α : Type) where
+  | ok (a : α)
+  | raised (e : String)
+  /-- the program went on to index a loaded resource (`m['h']['x']`): not desper's business -/
+  | stuck
+deriving DecidableEq, Repr, Inhabited
+
+/-- `ResourceMap.__getitem__` on split keys : tree.py:200-211 -/
+def getItemPath (st : St) (i : MId) (ps : List String) (last : String) : St × Outcome Item :=
+  match walk st i ps with
+  | none => (st, .raised "KeyError")
+  | some t =>
+    match chainGet? (st.m t).layers last with
+    | some h => let r := callH st h; (r.1, .ok (.val r.2))
+    | none =>
+      match Dict.get? (st.m t).maps last with
+      | some c => (st, .ok (.map c))
+      | none => (st, .raised "KeyError")
+
+/-- `ResourceMap.__getitem__(key)` : tree.py:186-211 -/
+def getItem (st : St) (i : MId) (key : String) : St × Outcome Item :=
+  getItemPath st i (keyPath key).1 (keyPath key).2
+
+/-- `m[k1][k2]...[kn]` with single names -/
+def chainItems (st : St) (i : MId) : List String → St × Outcome Item
+  | [] => (st, .ok (.map i))
+  | k :: ks =>
+    match getItemPath st i [] k with
+    | (st', .ok (.map c)) => chainItems st' c ks
+    | (st', .ok it) => if ks.isEmpty then (st', .ok it) else (st', .stuck)
+    | r => r
+
+/-- `m.get(k1).get(k2)....get(kn)` with single names (none: some `get` returned its default) -/
+def getChain (st : St) (i : MId) : List String → Option Ref
+  | [] => some (.map i)
+  | k :: ks =>
+    match lookup st i k with
+    | some (.map c) => getChain st c ks
+    | some (.handle h) => if ks.isEmpty then some (.handle h) else none
+    | none => none
+
+/-! ### ResourceMap.__setitem__ : tree.py:213-263 -/
+
+/-- the single-key tail of `__setitem__` : tree.py:250-263 -/
+def assign (st : St) (t : MId) (last : String) (v : Ref) : St :=
+  match v with
+  | .map c =>
+    -- for layer in target_map.handles.maps: layer.pop(last_key, None)
+    -- target_map.maps[last_key] = value
+    let n := st.m t
+    let st := st.setM t { n with layer0 := Dict.erase n.layer0 last,
+                                 lower := n.lower.map (Dict.erase · last),
+                                 maps := Dict.set n.maps last c }
+    -- value.parent = target_map; value.key = last_key
+    st.setM c { st.m c with parent := some t, key := some last }
+  | .handle h =>
+    -- target_map.maps.pop(last_key, None); target_map.handles[last_key] = value
+    let n := st.m t
+    let st := st.setM t { n with maps := Dict.erase n.maps last,
+                                 layer0 := Dict.set n.layer0 last h }
+    st.setH h { st.h h with parent := some t, key := some last }
+
+/-- the loop over `keys[:-1]` : tree.py:236-242.  Returns the target map. -/
+def descend (st : St) (t : MId) : List String → St × MId
+  | [] => (st, t)
+  | k :: ks =>
+    -- target_map.handles.pop(subkey, None)      (ChainMap.pop: first layer only)
+    let n := st.m t
+    let st := st.setM t { n with layer0 := Dict.erase n.layer0 k }
+    -- if subkey not in target_map.maps: target_map[subkey] = ResourceMap()
+    -- target_map = target_map.maps[subkey]
+    match Dict.get? (st.m t).maps k with
+    | some c => descend st c ks
+    | none =>
+      let c := MId.anon st.next
+      descend (assign st.bump t k (.map c)) c ks
+
+def setItemPath (st : St) (i : MId) (ps : List String) (last : String) (v : Ref) : St :=
+  let r := descend st i ps
+  assign r.1 r.2 last v
+
+/-- `ResourceMap.__setitem__(key, value)` -/
+def setItem (st : St) (i : MId) (key : String) (v : Ref) : St :=
+  setItemPath st i (keyPath key).1 (keyPath key).2 v
+
+/-- `m.handles.maps.insert(0, {})` (what the populator does on a conflict, model/__init__.py:180) -/
+def addLayer (st : St) (i : MId) : St :=
+  let n := st.m i
+  st.setM i { n with layer0 := [], lower := n.layer0 :: n.lower }
+
+/-! ### ResourceMap.clear : tree.py:265-293 -/
+
+def detachH (i : MId) (st : St) (h : HId) : St :=
+  -- if handle.parent == self: handle.parent = None; handle.key = None
+  if (st.h h).parent = some i then st.setH h { st.h h with parent := none, key := none } else st
+
+def detachM (i : MId) (st : St) (c : MId) : St :=
+  if (st.m c).parent = some i then st.setM c { st.m c with parent := none, key := none } else st
+
+def clearMap (st : St) (i : MId) : St :=
+  let n := st.m i
+  -- for layer in self.handles.maps: for handle in layer.values(): ...
+  let st := (n.layers.flatMap Dict.values).foldl (detachH i) st
+  -- for map_ in self.maps.values(): ...
+  let st := (Dict.values n.maps).foldl (detachM i) st
+  -- self.maps.clear(); del self.handles.maps[1:]; self.handles.clear()
+  st.setM i { st.m i with maps := [], layer0 := [], lower := [] }
+
+/-! ### static maps : tree.py:59-109, 295-331 -/
+
+/-- names the model does not cover: members of `StaticResourceMap` itself (the property excludes
+them).  For such a name every static access answers `unmodelled`. -/
+def reserved (k : String) : Bool :=
+  k = "get" || k = "_handle_names" || (k.startsWith "__" && k.endsWith "__")
+
+/-- `self.handles.items()` as attributes : tree.py:321-322 -/
+def handleAttrs (n : MapNode) : Dict String SAttr :=
+  (chainKeys n.layers).foldl (fun a k =>
+    match chainGet? n.layers k with
+    | some h => Dict.set a k (.handle h)
+    | none => a) []
+
+/-- one turn of `for key, value in self.maps.items(): object.__setattr__(subself, key,
+value.get_static_map())` : tree.py:328-329; `rec` is the recursive call -/
+def snapStep (rec : St → MId → St × Option Nat) (acc : St × Option (Dict String SAttr))
+    (kc : String × MId) : St × Option (Dict String SAttr) :=
+  match acc.2 with
+  | none => acc
+  | some a =>
+    match rec acc.1 kc.2 with
+    | (st', some s) => (st', some (Dict.set a kc.1 (.sub s)))
+    | (st', none) => (st', none)
+
+/-- allocate the `StaticSubmap()` instance -/
+def allocSnap (st : St) (node : SNode) : St × Nat :=
+  ({ st with snaps := Dict.set st.snaps st.snext node, snext := st.snext + 1 }, st.snext)
+
+/-- `get_static_map` : tree.py:295-331.  `none`: the recursion did not end (`RecursionError`). -/
+def snapshot : Nat → St → MId → St × Option Nat
+  | 0, st, _ => (st, none)
+  | fuel + 1, st, i =>
+    let n := st.m i
+    -- handles first, `_handle_names`, then the sub-maps (which win a name clash)
+    let r := n.maps.foldl (snapStep (snapshot fuel)) (st, some (handleAttrs n))
+    match r.2 with
+    | some a =>
+      let q := allocSnap r.1 { handleNames := chainKeys n.layers, attrs := a }
+      (q.1, some q.2)
+    | none => (r.1, none)
+
+/-- `StaticResourceMap.get` : tree.py:99-109 (`object.__getattribute__`) -/
+def sGet1 (st : St) (s : Nat) (k : String) : Option SAttr := Dict.get? (st.s s).attrs k
+
+/-- `StaticResourceMap.__getattribute__` (and `__getitem__`, which is `getattr`) : tree.py:78-97 -/
+def sGetAttr1 (st : St) (s : Nat) (k : String) : St × Outcome Item :=
+  if (st.s s).handleNames.contains k then
+    -- return object.__getattribute__(self, name)()
+    match Dict.get? (st.s s).attrs k with
+    | some (.handle h) => let r := callH st h; (r.1, .ok (.val r.2))
+    | some (.sub _) => (st, .raised "TypeError")
+    | none => (st, .raised "AttributeError")
+  else
+    match Dict.get? (st.s s).attrs k with
+    | some (.handle _) => (st, .raised "NotUnwrapped")   -- cannot happen: every handle is named
+    | some (.sub s') => (st, .ok (.smap s'))
+    | none => (st, .raised "AttributeError")
+
+/-- `s[k1][k2]...[kn]` / `s.k1.k2. ... .kn` -/
+def sItems (st : St) (s : Nat) : List String → St × Outcome Item
+  | [] => (st, .ok (.smap s))
+  | k :: ks =>
+    match sGetAttr1 st s k with
+    | (st', .ok (.smap s')) => sItems st' s' ks
+    | (st', .ok it) => if ks.isEmpty then (st', .ok it) else (st', .stuck)
+    | r => r
+
+/-- `s.get(k1).get(k2)....get(kn)` (none: AttributeError somewhere on the way) -/
+def sGetChain (st : St) (s : Nat) : List String → Option SAttr
+  | [] => some (.sub s)
+  | k :: ks =>
+    match sGet1 st s k with
+    | some (.sub s') => sGetChain st s' ks
+    | some (.handle h) => if ks.isEmpty then some (.handle h) else none
+    | none => none
+
+/-- `setattr(s, name, v)` / `delattr(s, name)` : tree.py:70-76 -/
+def sSetAttr (st : St) (_s : Nat) (_k : String) : St × Outcome Unit := (st, .raised "ValueError")
+def sDelAttr (st : St) (_s : Nat) (_k : String) : St × Outcome Unit := (st, .raised "ValueError")
+
+/-! ### histories -/
+
+inductive Op where
+  | set (m : MId) (key : String) (v : Ref)
+  | layer (m : MId)
+  | clear (m : MId)
+  | getitem (m : MId) (key : String)
+  | get (m : MId) (key : String)
+  | chain (m : MId) (ks : List String)
+  | call (h : HId)
+  | hclear (h : HId)
+  | cached (h : HId)
+  | snap (m : MId)
+  | sitems (s : Nat) (ks : List String)
+  | sget (s : Nat) (ks : List String)
+  | ssetattr (s : Nat) (k : String)
+  | sdelattr (s : Nat) (k : String)
+deriving Repr, DecidableEq, Inhabited
+
+inductive Out where
+  | unit
+  | item (o : Outcome Item)
+  | got (r : Option Ref)
+  | sgot (r : Option SAttr)
+  | val (v : Val)
+  | bool (b : Bool)
+  | snap (s : Option Nat)
+  | res (o : Outcome Unit)
+deriving Repr, DecidableEq, Inhabited
+
+/-- enough for every acyclic tree with at most this many maps on a branch -/
+def snapFuel (st : St) : Nat := st.mapsD.length + 2
+
+def step (st : St) : Op → St × Out
+  | .set m key v => (setItem st m key v, .unit)
+  | .layer m => (addLayer st m, .unit)
+  | .clear m => (clearMap st m, .unit)
+  | .getitem m key => let r := getItem st m key; (r.1, .item r.2)
+  | .get m key => (st, .got (get st m key))
+  | .chain m ks => let r := chainItems st m ks; (r.1, .item r.2)
+  | .call h => let r := callH st h; (r.1, .val r.2)
+  | .hclear h => (clearH st h, .unit)
+  | .cached h => (st, .bool (cachedH st h))
+  | .snap m => let r := snapshot (snapFuel st) st m; (r.1, .snap r.2)
+  | .sitems s ks => let r := sItems st s ks; (r.1, .item r.2)
+  | .sget s ks => (st, .sgot (sGetChain st s ks))
+  | .ssetattr s k => let r := sSetAttr st s k; (r.1, .res r.2)
+  | .sdelattr s k => let r := sDelAttr st s k; (r.1, .res r.2)
+
+/-- run a history, collecting the outputs (oldest first) -/
+def run (st : St) : List Op → St × List Out
+  | [] => (st, [])
+  | op :: ops =>
+    let r := step st op
+    let r' := run r.1 ops
+    (r'.1, r.2 :: r'.2)
+
+def exec (st : St) (ops : List Op) : St := (run st ops).1
+
+/-! ### line protocol -/
+open Proto
+
+structure RS where
+  st : St := {}
+  menv : Dict String MId := []
+  hdecl : List Nat := []
+  mdecl : List Nat := []
+  senv : Dict String Nat := []
+  /-- anonymous maps in discovery order -/
+  anon : List Nat := []
+  alphabet : List String := []
+  out : List String := []      -- newest first
+  bad : Bool := false
+
+def RS.emit (r : RS) (l : String) : RS := { r with out := l :: r.out }
+
+def sortStrings (l : List String) : List String := l.mergeSort (fun a b => decide (a ≤ b))
+
+def indexOf? (l : List Nat) (a : Nat) : Option Nat :=
+  let rec go : List Nat → Nat → Option Nat
+    | [], _ => none
+    | x :: xs, i => if x = a then some i else go xs (i + 1)
+  go l 0
+
+/-- display name of a map object; anonymous ones are numbered in discovery order -/
+def nameM (r : RS) : MId → RS × String
+  | .decl n => (r, s!"m{n}")
+  | .anon n =>
+    match indexOf? r.anon n with
+    | some i => (r, s!"a{i}")
+    | none => ({ r with anon := r.anon ++ [n] }, s!"a{r.anon.length}")
+
+def nameOpt (r : RS) : Option MId → RS × String
+  | none => (r, "None")
+  | some i => nameM r i
+
+def showKey : Option String → String
+  | none => "None"
+  | some k => ":" ++ k
+
+def showPath (p : List String) : String :=
+  if p.isEmpty then "-" else ":" ++ "/".intercalate p
+
+def showVal : Val → String
+  | .none => "val None"
+  | .tok h n => s!"val h{h} {n}"
+
+def parsePathTok (t : String) : Option String :=
+  if t.startsWith ":" then some (String.ofList (t.toList.drop 1)) else none
+
+def parseNamed (c : Char) (t : String) : Option Nat :=
+  match t.toList with
+  | c' :: rest => if c' = c then (String.ofList rest).toNat? else none
+  | [] => none
+
+def emitItem (r : RS) (tag : String) : Outcome Item → RS
+  | .ok (.val v) => r.emit s!"{tag} {showVal v}"
+  | .ok (.map i) => let (r, n) := nameM r i; r.emit s!"{tag} map {n}"
+  | .ok (.smap _) => r.emit s!"{tag} smap"
+  | .raised e => r.emit s!"{tag} raised {e}"
+  | .stuck => r.emit s!"{tag} stuck"
+
+/-- `dump`: the tree below a map, to depth 4 -/
+def dumpMap : Nat → RS → List String → MId → RS
+  | 0, r, _, _ => r
+  | d + 1, r, path, i =>
+    let n := r.st.m i
+    let (r, nm) := nameM r i
+    let (r, pn) := nameOpt r n.parent
+    let r := r.emit s!"map {showPath path} {nm} parent={pn} key={showKey n.key} nlayers={n.layers.length}"
+    let r := (List.range n.layers.length).foldl (fun r li =>
+      let layer := (n.layers[li]?).getD []
+      (sortStrings (Dict.keys layer)).foldl (fun r k =>
+        match Dict.get? layer k with
+        | none => r
+        | some h =>
+          let hn := r.st.h h
+          let (r, pn) := nameOpt r hn.parent
+          r.emit s!"hnd {showPath path} {li} {showKey (some k)} h{h} parent={pn} key={showKey hn.key}") r) r
+    (sortStrings (Dict.keys n.maps)).foldl (fun r k =>
+      match Dict.get? n.maps k with
+      | none => r
+      | some c => dumpMap d r (path ++ [k]) c) r
+
+/-- `sdump`: the snapshot probed with `get` over the scenario's alphabet, to depth 4 -/
+def dumpSnap : Nat → RS → List String → Nat → RS
+  | 0, r, _, _ => r
+  | d + 1, r, path, s =>
+    r.alphabet.foldl (fun r k =>
+      if reserved k then r else
+      match sGet1 r.st s k with
+      | none => r
+      | some (.handle h) => r.emit s!"snode {showPath (path ++ [k])} handle h{h}"
+      | some (.sub s') => dumpSnap d (r.emit s!"snode {showPath (path ++ [k])} smap") (path ++ [k]) s') r
+
+def compsOf (t : String) : Option (List String) :=
+  (parsePathTok t).map splitKey
+
+def parseRef (r : RS) (t : String) : Option Ref :=
+  match parseNamed 'h' t with
+  | some h => if r.hdecl.contains h then some (.handle h) else none
+  | none => (Dict.get? r.menv t).map .map
+
+def anyReserved (ks : List String) : Bool := ks.any reserved
+
+def execLine (r : RS) (line : String) : RS :=
+  if r.bad then r else
+  let bad : RS := { r with bad := true }
+  match tokens line with
+  | [] => r
+  | ["newmap", m] =>
+    match parseNamed 'm' m with
+    | some k =>
+      if Dict.contains r.menv m then bad
+      else { r with menv := Dict.set r.menv m (.decl k), mdecl := r.mdecl ++ [k] }
+    | none => bad
+  | ["newhandle", h, _kind] =>
+    match parseNamed 'h' h with
+    | some k => if r.hdecl.contains k then bad else { r with hdecl := r.hdecl ++ [k] }
+    | none => bad
+  | ["op", "bind", m, src, p] =>
+    match parseNamed 'm' m, parseNamed 'm' src, parsePathTok p with
+    | some _, some _, some key =>
+      if Dict.contains r.menv m then bad else
+      match Dict.get? r.menv src with
+      | none => r.emit "unbound"
+      | some i =>
+        match get r.st i key with
+        | some (.map c) =>
+          let (r, n) := nameM r c
+          ({ r with menv := Dict.set r.menv m c }).emit s!"bound {n}"
+        | _ => r.emit "bound none"
+    | _, _, _ => bad
+  | ["op", "set", m, p, v] =>
+    match parseNamed 'm' m, parsePathTok p with
+    | some _, some key =>
+      match Dict.get? r.menv m, parseRef r v with
+      | some i, some v => ({ r with st := (step r.st (.set i key v)).1 }).emit "res ok"
+      | _, _ => r.emit "unbound"
+    | _, _ => bad
+  | ["op", kind, x] =>
+    if kind = "layer" || kind = "clear" || kind = "dump" then
+      match parseNamed 'm' x with
+      | none => bad
+      | some _ =>
+        match Dict.get? r.menv x with
+        | none => r.emit "unbound"
+        | some i =>
+          if kind = "layer" then ({ r with st := (step r.st (.layer i)).1 }).emit "res ok"
+          else if kind = "clear" then ({ r with st := (step r.st (.clear i)).1 }).emit "res ok"
+          else (dumpMap 5 r [] i).emit "end-dump"
+    else if kind = "call" || kind = "hclear" || kind = "cached" || kind = "stat" then
+      match parseNamed 'h' x with
+      | none => bad
+      | some h =>
+        if !r.hdecl.contains h then bad
+        else if kind = "call" then
+          let q := callH r.st h
+          ({ r with st := q.1 }).emit (showVal q.2)
+        else if kind = "hclear" then ({ r with st := clearH r.st h }).emit "res ok"
+        else if kind = "cached" then r.emit s!"cached h{h} {showBool (cachedH r.st h)}"
+        else r.emit s!"stat h{h} loads={(r.st.h h).loads} cached={showBool (r.st.h h).cached}"
+    else if kind = "sdump" then
+      match parseNamed 's' x with
+      | none => bad
+      | some _ =>
+        match Dict.get? r.senv x with
+        | none => r.emit "sunbound"
+        | some s => (dumpSnap 4 r [] s).emit "end-sdump"
+    else bad
+  | ["op", "links"] =>
+    let r := r.hdecl.foldl (fun r h =>
+      let hn := r.st.h h
+      let (r, pn) := nameOpt r hn.parent
+      r.emit s!"link h{h} parent={pn} key={showKey hn.key}") r
+    let r := r.mdecl.foldl (fun r k =>
+      let n := r.st.m (.decl k)
+      let (r, pn) := nameOpt r n.parent
+      r.emit s!"link m{k} parent={pn} key={showKey n.key}") r
+    r.emit "end-links"
+  | ["op", "snap", s, m] =>
+    match parseNamed 's' s, parseNamed 'm' m with
+    | some _, some _ =>
+      match Dict.get? r.menv m with
+      | none => r.emit "unbound"
+      | some i =>
+        let q := snapshot (snapFuel r.st) r.st i
+        match q.2 with
+        | some sid => ({ r with st := q.1, senv := Dict.set r.senv s sid }).emit "sres ok"
+        | none => ({ r with st := q.1 }).emit "sres raised RecursionError"
+    | _, _ => bad
+  | ["op", kind, x, p] =>
+    match compsOf p, parsePathTok p with
+    | some ks, some key =>
+      if kind = "getitem" || kind = "get" || kind = "chain" then
+        match parseNamed 'm' x with
+        | none => bad
+        | some _ =>
+          match Dict.get? r.menv x with
+          | none => r.emit "unbound"
+          | some i =>
+            if kind = "getitem" then
+              let q := getItem r.st i key
+              emitItem { r with st := q.1 } "item" q.2
+            else if kind = "chain" then
+              let q := chainItems r.st i ks
+              emitItem { r with st := q.1 } "item" q.2
+            else
+              match get r.st i key with
+              | none => r.emit "got default"
+              | some (.handle h) => r.emit s!"got handle h{h}"
+              | some (.map c) => let (r, n) := nameM r c; r.emit s!"got map {n}"
+      else if kind = "sgetitem" || kind = "sgetattr" || kind = "sget" || kind = "ssetattr"
+              || kind = "sdelattr" then
+        match parseNamed 's' x with
+        | none => bad
+        | some _ =>
+          match Dict.get? r.senv x with
+          | none => r.emit "sunbound"
+          | some s =>
+            if anyReserved ks then r.emit "unmodelled"
+            else if kind = "sgetitem" || kind = "sgetattr" then
+              let q := sItems r.st s ks
+              emitItem { r with st := q.1 } "sitem" q.2
+            else if kind = "sget" then
+              match sGetChain r.st s ks with
+              | none => r.emit "sgot raised AttributeError"
+              | some (.handle h) => r.emit s!"sgot handle h{h}"
+              | some (.sub _) => r.emit "sgot smap"
+            else
+              -- navigate with `get` to the owner of the last name, then setattr / delattr
+              match sGetChain r.st s ks.dropLast with
+              | some (.sub s') =>
+                let q := if kind = "ssetattr" then sSetAttr r.st s' (ks.getLastD "")
+                         else sDelAttr r.st s' (ks.getLastD "")
+                match q.2 with
+                | .raised e => ({ r with st := q.1 }).emit s!"sres raised {e}"
+                | _ => ({ r with st := q.1 }).emit "sres ok"
+              | _ => r.emit "sres nav-failed"
+      else bad
+    | _, _ => bad
+  | _ => bad
+
+/-- every path component that occurs in the scenario, sorted (the probe alphabet of `sdump`) -/
+def alphabetOf (lines : List String) : List String :=
+  let comps := lines.flatMap fun l =>
+    (tokens l).flatMap fun t => match compsOf t with
+      | some ks => ks
+      | none => []
+  sortStrings comps.eraseDups
+
+def runScenario (lines : List String) : List String :=
+  let r0 : RS := { alphabet := alphabetOf lines }
+  let r := lines.foldl execLine r0
+  if r.bad then ["bad-op"] else r.out.reverse
+
 end Desper.Tree
